@@ -22,5 +22,6 @@ func moreGens() []struct {
 		{"Occurs.v", genOccurs},           // C05
 		{"DateTime.v", genDateTime},       // C19
 		{"StreamSplit.v", genStreamSplit}, // C04, C17
+		{"EdiShape.v", genEdiShape},       // C07
 	}
 }
